@@ -548,9 +548,4 @@ end Pm.Daemon
 
 section AxiomChecks
 open Pm.Daemon
-#print axioms devPass_client
-#print axioms devPass_devs
-#print axioms devPass_store_cell
-#print axioms devPass_store_nodes
-#print axioms devPass_rest
 end AxiomChecks
